@@ -1004,9 +1004,10 @@ void XMLDateTime::parseDuration()
             if ( mlsec != NOT_FOUND )
             {
                 /***
-                 * make usure there is something after the '.' and before the end.
+                 * make usure there is something after the '.' and before the end,
+                 * and something before the '.' as well.
                  */
-                if ( mlsec+1 == end )
+                if ( mlsec+1 == end || XMLSize_t (mlsec) == fStart )
                 {
                     ThrowXMLwithMemMgr1(SchemaDateTimeException
                             , XMLExcepts::DateTime_dur_inv_seconds
